@@ -248,6 +248,7 @@ static int runScript(const char* scriptPath, const char* outPath, int tid) {
     std::mt19937 rng((unsigned)(g_yield_seed * 7919 + tid));
     std::unique_ptr<Open> cur;
     std::map<std::string, Frame> vars;
+    Parameter pk("P", "");     // the parameter the pset ops work on (kept across ops; pnew starts a fresh one)
     std::string line; size_t n = 0;
     while (std::getline(in, line)) {
         ++n;
@@ -297,6 +298,9 @@ static int runScript(const char* scriptPath, const char* outPath, int tid) {
             if (t[5] != "N" && !setParam(p, t[5], t[6], t[7], sres)) { std::fprintf(out, "R set %s\n", sres.c_str()); continue; }
             if (t[4] == "1") p.lock();
             res = classify([&]() { cur->parameter(unx(t[1]), p); });
+        }
+        else if (op == "paramself") {   // paramself <group> <param> <dstgroup>: hand a STORED parameter of the same object back to it
+            res = classify([&]() { cur->parameter(unx(t[3]), static_cast<const ezc3d::c3d&>(*cur).parameters().group(unx(t[1])).parameter(unx(t[2]))); });
         }
         else if (op == "lock") { res = classify([&]() { cur->lockGroup(unx(t[1])); }); }
         else if (op == "unlock") { res = classify([&]() { cur->unlockGroup(unx(t[1])); }); }
@@ -349,11 +353,11 @@ static int runScript(const char* scriptPath, const char* outPath, int tid) {
             std::fprintf(out, "V sep %s\n", bad.empty() ? "ok" : ("shared " + bad).c_str());
             continue;
         }
+        else if (op == "pnew") { pk = Parameter("P", ""); std::fprintf(out, "R ok\n"); std::fprintf(out, "PS %s\n", paramLine(pk).c_str()); continue; }
         else if (op == "pset") {
-            Parameter p("P", "");
-            std::string sres; setParam(p, t[1], t[2], t[3], sres);
+            std::string sres; setParam(pk, t[1], t[2], t[3], sres);
             std::fprintf(out, "R %s\n", sres.c_str());
-            std::fprintf(out, "PS %s\n", paramLine(p).c_str());
+            std::fprintf(out, "PS %s\n", paramLine(pk).c_str());
             continue;
         }
         else if (op == "hex2int" || op == "hex2uint") {
